@@ -125,7 +125,7 @@ def renumber_expr(t, smap, cmap):
     return (t[0], renumber_expr(t[1], smap, cmap), renumber_expr(t[2], smap, cmap))
 
 
-def finish_deck(st, cells, imps, numbering='plain'):
+def finish_deck(st, cells, imps, numbering='plain', imp_style='cell'):
     """cells: list of (number, expr).  numbering='high': the same deck with surface numbers above 1000 (which
     must not be mistaken for implicit surfaces 1000*cell+surf) and sparse, unordered cell numbers; the reference
     keeps the plain numbers, only the rendered text and the expected volume ids change."""
@@ -138,8 +138,13 @@ def finish_deck(st, cells, imps, numbering='plain'):
         smap = {s: 2000 + 7 * s for s in SURF_CARDS}
         cmap = {c: v for (c, _), v in zip(cells, [731, 40, 5, 99999, 12])}
     st.cmap = cmap
-    for (n, e), imp in zip(cells, imps):
-        st.cells.append('%d 0 %s imp:n=%d' % (cmap[n], render_expr(renumber_expr(e, smap, cmap)), imp))
+    # importances on the cell cards or on an IMP data card; '-frac': every non-zero value is a fraction below 1/2
+    shown = [('%g' % (imp * 0.25 if imp_style.endswith('-frac') else imp)) for imp in imps]
+    for (n, e), imp in zip(cells, shown):
+        kw = ' imp:n=%s' % imp if imp_style.startswith('cell') else ''
+        st.cells.append('%d 0 %s%s' % (cmap[n], render_expr(renumber_expr(e, smap, cmap)), kw))
+    if imp_style.startswith('card'):
+        st.data.append('imp:n ' + ' '.join(shown))
     st.surfs = ['%d %s' % (smap[s], SURF_CARDS[s].split(' ', 1)[1]) for s in st.used]
     return st
 
@@ -236,7 +241,8 @@ def b_nestedcompl(ch):
     imps = ch.choose('imps', [(1, 1, 1, 1), (1, 0, 1, 0), (0, 1, 0, 1)])
     cells = [(1, e1), (2, ('*', e2, ('^', 1))), (3, e3),
              (4, ('*', ('*', ('^', 1), ('^', 2)), ('^', 3)))]
-    return finish_deck(st, cells, imps)
+    style = ch.choose('imp-style', ['cell', 'card', 'card-frac', 'cell-frac'])
+    return finish_deck(st, cells, imps, imp_style=style)
 
 
 def b_forward(ch):
@@ -246,7 +252,8 @@ def b_forward(ch):
     e2 = choose_tree(ch, 'e2', [1, 2], LITS3, free=False)
     imps = ch.choose('imps', [(1, 1, 1), (1, 0, 1), (0, 1, 1), (1, 1, 0)], free=False)
     cells = [(30, ('*', ('^', 7), ('^', 12))), (7, ('*', e2, ('^', 12))), (12, e)]
-    return finish_deck(st, cells, imps)
+    style = ch.choose('imp-style', ['cell', 'card', 'card-frac', 'cell-frac'])
+    return finish_deck(st, cells, imps, imp_style=style)
 
 
 def b_chain(free=False):
